@@ -26,6 +26,7 @@ import (
 	"flag"
 	"fmt"
 	"os"
+	"strings"
 	"sync"
 	"sync/atomic"
 	"time"
@@ -77,6 +78,7 @@ type GateResult struct {
 	Accepted  int             `json:"accepted"`
 	Results   int             `json:"results"`
 	Early     []GateEarly     `json:"early"`
+	Stuck     []GateEarly     `json:"stuck"`
 	Log       []string        `json:"log"`
 	TickMs    int             `json:"tick_ms"`
 	WallMs    int64           `json:"wall_ms"`
@@ -102,6 +104,8 @@ type gate struct {
 	tryOk    map[int]time.Duration // search goroutine -> it owns the search (accepted start)
 	endSet   map[int]time.Duration // search goroutine -> it has decided to end and stored its result
 	accepted int
+	lastInfo string // last info string sent by the engine (ClearHash / ResizeCache say whether they were refused)
+	readyoks int
 }
 
 func (g *gate) note(f string, a ...interface{}) {
@@ -174,8 +178,16 @@ func (g *gate) openAll() {
 
 type gateCapture struct{ g *gate }
 
-func (c *gateCapture) SendReadyOk()          {}
-func (c *gateCapture) SendInfoString(string) {}
+func (c *gateCapture) SendReadyOk() {
+	c.g.mu.Lock()
+	c.g.readyoks++
+	c.g.mu.Unlock()
+}
+func (c *gateCapture) SendInfoString(m string) {
+	c.g.mu.Lock()
+	c.g.lastInfo = m
+	c.g.mu.Unlock()
+}
 func (c *gateCapture) SendIterationEndInfo(int, int, Value, uint64, uint64, time.Duration, moveslice.MoveSlice) {
 }
 func (c *gateCapture) SendAspirationResearchInfo(int, int, Value, string, uint64, uint64, time.Duration, moveslice.MoveSlice) {
@@ -373,8 +385,18 @@ func (r *gateRun) limits(i int) (*position.Position, *search.Limits) {
 		sl.Ponder = true
 		sl.TimeControl = true
 		sl.MovesToGo = 1
-		sl.WhiteTime = time.Duration(float64(limit) / 0.8) // below 100 ms the engine plans with 80% of the clock
-		sl.BlackTime = sl.WhiteTime
+		// the clock that makes the engine's own budget function answer `limit` (it plans with 80% or 90% of the clock)
+		w := time.Duration(float64(limit) / 0.9)
+		for n := 0; n < 20; n++ {
+			sl.WhiteTime, sl.BlackTime = w, w
+			got := r.s.VerifSetupTimeControl(p, sl)
+			if d := limit - got; d > time.Millisecond || d < -time.Millisecond {
+				w += d
+			} else {
+				break
+			}
+		}
+		sl.WhiteTime, sl.BlackTime = w, w
 	}
 	if r.selfend[i] {
 		sl.Depth = 1
@@ -456,8 +478,14 @@ func (r *gateRun) step(n int, st *GateStep) bool {
 			g.release(0)
 			return r.awaitReturn("StartSearch")
 		case "c.stop.set":
+			var x string
+			_ = json.Unmarshal(st.X, &x)
 			r.requestAt = append(r.requestAt, gateReq{time.Since(g.t0), "stop"})
-			r.launch("StopSearch", func() { r.s.StopSearch() })
+			if x == "newgame" {
+				r.launch("NewGame", func() { r.s.NewGame() })
+			} else {
+				r.launch("StopSearch", func() { r.s.StopSearch() })
+			}
 			return want(0, st.L, gateStepTimeout)
 		case "call.wait":
 			r.pending = "wait"
@@ -503,14 +531,42 @@ func (r *gateRun) step(n int, st *GateStep) bool {
 				r.tid[st.Spawn] = id
 			}
 			return true
-		case "call.issearching":
+		case "call.query":
+			var x string
+			_ = json.Unmarshal(st.X, &x)
 			var v bool
-			r.launch("IsSearching", func() { v = r.s.IsSearching() })
-			if !r.awaitReturn("IsSearching") {
+			g.mu.Lock()
+			g.lastInfo, g.readyoks = "", 0
+			g.mu.Unlock()
+			switch x {
+			case "issearching":
+				r.launch("IsSearching", func() { v = r.s.IsSearching() })
+			case "clearhash":
+				r.launch("ClearHash", func() { r.s.ClearHash() })
+			case "resize":
+				r.launch("ResizeCache", func() { r.s.ResizeCache() })
+			case "isready":
+				r.launch("IsReady", func() { r.s.IsReady() })
+			}
+			if !r.awaitReturn(x) {
 				return false
 			}
+			g.mu.Lock()
+			info, oks := g.lastInfo, g.readyoks
+			g.mu.Unlock()
+			switch x {
+			case "issearching":
+			case "clearhash", "resize":
+				v = strings.Contains(info, "while searching") // refused
+			case "isready":
+				if oks != 1 {
+					r.diverge(n, st, "one readyok", fmt.Sprintf("%d", oks))
+					return false
+				}
+				return true
+			}
 			if v != st.Srch {
-				r.diverge(n, st, fmt.Sprintf("IsSearching() = %v", st.Srch), fmt.Sprintf("%v", v))
+				r.diverge(n, st, fmt.Sprintf("%s sees searching = %v", x, st.Srch), fmt.Sprintf("%v (%q)", v, info))
 				return false
 			}
 			return true
@@ -626,9 +682,58 @@ func runGateBehaviour(b *GateBehaviour, watchdog time.Duration, tickMs int) *Gat
 			}
 		}
 	}
+	// monitor: a search with a depth limit or a move time, and a ponder search after its ponderhit, ends by itself -
+	// whatever earlier searches and their timers did. The gates are open; three seconds are plenty for 90 ms.
+	pending := func() []GateEarly {
+		var out []GateEarly
+		g.mu.Lock()
+		defer g.mu.Unlock()
+		for k, id := range g.born {
+			if k >= len(r.callModes) {
+				break
+			}
+			if _, acc := g.tryOk[id]; !acc {
+				continue
+			}
+			if _, ended := g.endSet[id]; ended {
+				continue
+			}
+			m := r.callModes[k]
+			self := m == "depth" || m == "time"
+			if m == "ponder" {
+				for _, q := range r.requestAt {
+					if q.kind == "ponderhit" && q.at > r.callAt[k] && (k+1 >= len(r.callAt) || q.at < r.callAt[k+1]) {
+						self = true
+					}
+				}
+			}
+			if self {
+				out = append(out, GateEarly{Search: k + 1, Mode: m, Note: "the search did not end by itself within 3 s although its limit (depth 1 / 90 ms) was reached long ago"})
+			}
+		}
+		return out
+	}
+	waitSelfEnd := func() {
+		deadline := time.Now().Add(3 * time.Second)
+		for len(pending()) > 0 && time.Now().Before(deadline) {
+			drain(10 * time.Millisecond)
+		}
+		for _, p := range pending() {
+			dup := false
+			for _, q := range res.Stuck {
+				dup = dup || q.Search == p.Search
+			}
+			if !dup {
+				res.Stuck = append(res.Stuck, p)
+			}
+		}
+	}
 	if res.Hang == "" && res.Panic == "" {
 		if res.Diverged != nil {
 			drain(time.Duration(4*tickMs) * time.Millisecond)
+			if !r.inflight {
+				waitSelfEnd() // before any later stop request can hide it
+			}
 		}
 		if r.inflight {
 			if r.inflightName == "WaitWhileSearching" {
@@ -662,22 +767,40 @@ func runGateBehaviour(b *GateBehaviour, watchdog time.Duration, tickMs int) *Gat
 				r.launch("StartSearch", func() { r.s.StartSearch(*p, *sl) })
 				r.awaitReturn("StartSearch")
 			case "c.stop.set":
+				var x string
+				_ = json.Unmarshal(st.X, &x)
 				r.requestAt = append(r.requestAt, gateReq{time.Since(g.t0), "stop"})
-				r.launch("StopSearch", func() { r.s.StopSearch() })
+				if x == "newgame" {
+					r.launch("NewGame", func() { r.s.NewGame() })
+				} else {
+					r.launch("StopSearch", func() { r.s.StopSearch() })
+				}
 				r.awaitReturn("StopSearch")
 			case "call.ponderhit":
 				r.requestAt = append(r.requestAt, gateReq{time.Since(g.t0), "ponderhit"})
 				r.launch("PonderHit", func() { r.s.PonderHit() })
 				r.awaitReturn("PonderHit")
-			case "call.issearching":
-				r.launch("IsSearching", func() { r.s.IsSearching() })
-				r.awaitReturn("IsSearching")
+			case "call.query":
+				var x string
+				_ = json.Unmarshal(st.X, &x)
+				switch x {
+				case "issearching":
+					r.launch("IsSearching", func() { r.s.IsSearching() })
+				case "clearhash":
+					r.launch("ClearHash", func() { r.s.ClearHash() })
+				case "resize":
+					r.launch("ResizeCache", func() { r.s.ResizeCache() })
+				case "isready":
+					r.launch("IsReady", func() { r.s.IsReady() })
+				}
+				r.awaitReturn(x)
 			case "tick":
 				drain(time.Duration(tickMs) * time.Millisecond)
 			}
 		}
 	}
 	if res.Hang == "" && res.Panic == "" {
+		waitSelfEnd()
 		// whatever is still running is stopped now - a request like any other
 		r.requestAt = append(r.requestAt, gateReq{time.Since(g.t0), "stop"})
 		r.launch("final StopSearch", func() { r.s.StopSearch() })
